@@ -333,6 +333,8 @@ def run(ctx):
                 "thorough), every failing chunk position x (error code 2..8 | the server hangs up: channel closed) x "
                 "confirm/callback/prefetch/cap sampled, putfo's file_size and the STAT-reported size free")
     ctx.trust("server answers every request once, in order (real SFTPServer._process inline / real loop threaded)")
+    from pv import lib_sftpgen
+    ctx.write_generated("C28", lib_sftpgen.c28_generated_source())
     ctx.build()
     rng = ctx.rng
     n_lock = 2500 if ctx.thorough else 450
@@ -405,6 +407,40 @@ def run(ctx):
             if got != want:
                 bad.add(ci)
                 ctx.disagree("lockstep:" + kind, {"case": cases[ci], "request": reqs[idx][:200]}, str(got)[:400], str(want)[:400])
+
+    # ---------------- getfo with prefetch under the deterministic scheduler: the reader and the prefetch thread are
+    # both parked where they ask for SFTPClient._lock, so the PRNG explores "two threads inside _async_request" and
+    # the order in which the server sees (and answers) their requests; the body of getfo is replayed op by op
+    # (prefetch(size, cap), read(32768) until empty); oracle: the bytes read, concatenated, are the file
+    from pv.props import c28 as _c28
+
+    n_sched = 300 if ctx.thorough else 60
+    for si in range(n_sched):
+        maxreq = rng.choice([7, 16, 64])
+        size = rng.randrange(1, 12 * maxreq)
+        cap = rng.choice([1, 1, 2, 3, None])
+        nreads = -(-size // 32768) + 1
+        ops = [("prefetch", size, cap)] + [("read", 32768)] * nreads
+        bias = rng.choice(["random", "reader", "threads", "server-last", "server-first"])
+        seed = rng.choice([None, rng.randrange(1 << 20)])
+        data, res, trace = _c28.lockstep_case(rng, size, maxreq, seed, ops, bias, None, -1)
+        case = {"shape": "getfo(prefetch=True) replayed op by op under the scheduler", "size": size, "maxreq": maxreq,
+                "cap": cap, "bias": bias, "short_read_seed": seed, "file": hx(data) if size <= 64 else "prng(%d)" % size,
+                "schedule": [t for t in trace if t.startswith("a ")][:400]}
+        ctx.case(("sched-getfo", size, maxreq, cap, hash(tuple(trace))), True)
+        ctx.dist("sched-getfo")
+        if res["hang"]:
+            ctx.fail("transfer-hangs:getfo", case, "no task can move and the download has not finished")
+        elif res["exc"] is not None:
+            ctx.fail("getfo-raises-unexpectedly:" + L.exc_kind(res["exc"]), case, repr(res["exc"]))
+        else:
+            raised = [r for r in res["results"] if not isinstance(r[2], bytes)]
+            got = b"".join(r[2] for r in res["results"] if isinstance(r[2], bytes))
+            if not raised and got != data:
+                first = next((i for i in range(min(len(got), len(data))) if got[i] != data[i]), min(len(got), len(data)))
+                ctx.fail("getfo-returns-ok-with-wrong-bytes", case,
+                         "the reads of the download add up to %d bytes, the file has %d; first difference at %d "
+                         "(two requests went out under one id?)" % (len(got), len(data), first))
 
     # ---------------- getfo / get without prefetch: lockstep with the sequential model
     tmpdir = tempfile.mkdtemp(prefix="pv-c29-")
@@ -519,7 +555,8 @@ META = {
               "failed_stat_or_open_raises, dropped_session_raises: a server that hangs up instead of answering). getfo with prefetching (the default) on C28's concurrent model extended with "
               "failing requests: for every schedule, cap, short-read and failure pattern, if no read raised and the last "
               "read came back empty, the concatenation of everything read is the remote file "
-              "(getfo_with_prefetch_normal_return_implies_local_equals_remote)."),
+              "(getfo_with_prefetch_normal_return_implies_local_equals_remote). All of it rests on the source fact that "
+              "request ids are allocated under SFTPClient._lock (request_ids_allocated_under_lock, AST, every run)."),
     "note": ("Trusted: Lean kernel + 3 standard axioms; lockstep harnesses (real client code against the real "
              "SFTPServer._process run inline, no threads) for write programs and for getfo/get; server answers every "
              "request once in order; the confirm stat of put is not in the composed theorem (it sends no write and can "
